@@ -214,3 +214,63 @@ def c05(res: CheckResult) -> None:
     res.samples += vectors[1000:1003]
     res.coverage_extra["exhaustive"] = True
     res.add_unit("signatures x call shapes", max_params=mp, max_positionals=mpos, **stats)
+
+
+# ---- violation messages ----------------------------------------------------------------------------------
+EXPR_CLAUSES = {"msg.replaced_by_other_exception": {"C07"}, "msg.text": {"C07"}, "msg.header": {"C07"},
+                "msg.layout_differs": {"C07"}, "msg.touched_skipped_node": {"C07"},
+                "msg.value_missing": {"C06"}, "msg.value_unsound": {"C06"}, "msg.unsorted": {"C20"}}
+EXPR_ASSUMPTIONS = COMMON_ASSUMPTIONS + [
+    "values come from CPython: the specification's model of Python evaluation (Eval) is cross-checked against CPython "
+    "on every case (verdict, evaluated nodes, value); a disagreement is a machinery failure, not a violation",
+    "core grammar: constants, names, not, unary minus, calls (user function, builtin), subscript, attribute, is None, "
+    "+, //, and/or (2-3 operands), <, ==, in, chained <, conditional expression; other forms are outside the "
+    "exhaustive families",
+    "completeness of the listed values is claimed only when no name is bound to None (the property's own exclusion)"]
+
+
+def _expr_run(res: CheckResult, layouts: bool) -> None:
+    from icv import exprcheck as E
+    from icv.result import MachineryError
+    ic = C.load_icontract()
+    rng = random.Random(res.seed)
+    res.assumptions = EXPR_ASSUMPTIONS
+    budget = 2500 if res.tier == "quick" else 12000
+    fams = [("all expressions of depth <= 1 x all environments", E.fam_depth1(), 0),
+            ("calls / subscripts / attributes / operators over boolean, conditional and comparison sub-expressions",
+             E.fam_nested(rng, budget), 10 if res.tier == "quick" else 24),
+            ("guard patterns (later operands defined only if earlier ones hold)", E.fam_guards(rng, budget),
+             10 if res.tier == "quick" else 24)]
+    for name, exprs, per in fams:
+        cases = E.make_cases(exprs, rng, envs_per_expr=per)
+        r, viol, py = E.model_check_expr(cases)
+        if not r.ok:
+            raise MachineryError("ICExpr: the switch-off specification fails {}: {}".format(r.violated, (r.error or "")[:800]))
+        res.states += r.distinct
+        res.transitions += r.states
+        st = E.check_cases(res, EXPR_CLAUSES, cases, viol, py, ic)
+        if st["violated"] < 100:
+            raise MachineryError("ICExpr family {} is vacuous".format(name))
+        res.traces += st["cases"]
+        res.evaluations += st["lines_compared"]
+        if layouts and not res.violations:
+            st.update(E.check_layouts(res, EXPR_CLAUSES, cases, viol, ic, rng, 12 if res.tier == "quick" else 60))
+            res.traces += st.get("layout_cases", 0)
+        res.add_unit(name, expressions=len(exprs), **st)
+        if viol:
+            k = sorted(viol)[len(viol) // 2]
+            c = next(c for c in cases if c["cid"] == k)
+            tree, _ = E.parse(c["expr"])
+            res.samples.append({"condition": E.render(tree), "env": c["env"], "expected": viol[k]})
+        if res.violations:
+            break
+
+
+@check("C06")
+def c06(res: CheckResult) -> None:
+    _expr_run(res, layouts=False)
+
+
+@check("C07")
+def c07(res: CheckResult) -> None:
+    _expr_run(res, layouts=True)
